@@ -226,10 +226,10 @@ SUB_FAMS = ["join", "try_join", "merge", "zip", "future_group", "stream_group"]
 
 # per property: families, profiles (with relative weights), configs, base count per (spec, profile, config)
 PLAN = {
-    "C01": dict(fams=ALL_FAMS, profiles=["mixed", "wakeonly", "never"], configs=CONFIGS, count=(14, 150)),
-    "C02": dict(fams=ALL_FAMS, profiles=["mixed", "drop", "panic"], configs=CONFIGS, count=(14, 150)),
-    "C03": dict(fams=ALL_FAMS, profiles=["mixed", "wakeonly"], configs=CONFIGS, count=(18, 200)),
-    "C20": dict(fams=CONC_FAMS, profiles=["never", "mixed"], configs=CONFIGS, count=(25, 250)),
+    "C01": dict(fams=ALL_FAMS, profiles=["mixed", "wakeonly", "never", "threads"], configs=CONFIGS, count=(14, 150)),
+    "C02": dict(fams=ALL_FAMS, profiles=["mixed", "drop", "panic", "threads"], configs=CONFIGS, count=(14, 150)),
+    "C03": dict(fams=ALL_FAMS, profiles=["mixed", "wakeonly", "threads"], configs=CONFIGS, count=(18, 200)),
+    "C20": dict(fams=CONC_FAMS, profiles=["never", "mixed", "threads"], configs=CONFIGS, count=(25, 250)),
     "C04": dict(fams=["join"], profiles=["mixed", "wakeonly"], configs=CONFIGS, count=(120, 1500)),
     "C05": dict(fams=["try_join"], profiles=["mixed", "wakeonly", "allerr"], configs=CONFIGS, count=(100, 1200)),
     "C06": dict(fams=["race"], profiles=["mixed", "wakeonly"], configs=CONFIGS, count=(130, 1500)),
@@ -384,7 +384,7 @@ def check(prop, tier, seed):
             for sh in range(nshards):
                 part = sp[sh::nshards]
                 tag = "%s_%s_%s_%d" % (prop, cfg, profile, sh)
-                jobs.append((cfg, part, profile, count, seed * 1000 + pi * 17 + sh, tag))
+                jobs.append((cfg, part, profile, max(4, count // 3) if profile == "threads" else count, seed * 1000 + pi * 17 + sh, tag))
 
     def do(job):
         cfg, part, profile, cnt, sd, tag = job
